@@ -130,6 +130,16 @@ func (sc *Scenario) validate() error {
 			}
 		}
 	}
+	if sc.anyRecvTimeout() && sc.anySlowCallback() {
+		// Remove holds the manager-wide mutex while it waits for the target's
+		// goroutine. If that goroutine is inside a slow Update callback and the
+		// receive-timeout goroutine of any target meanwhile calls Reconnect, the
+		// latter waits on the mutex; synctest does not treat a mutex wait as
+		// durable, so virtual time could not advance and the case would hang for
+		// real (in production it merely waits). The two features are therefore
+		// never combined.
+		return fmt.Errorf("slow Update callbacks cannot be combined with receive timeouts under virtual time")
+	}
 	if len(sc.Events) > 64 {
 		return fmt.Errorf("too many events")
 	}
@@ -144,6 +154,31 @@ func (sc *Scenario) validate() error {
 		}
 	}
 	return nil
+}
+
+func (sc *Scenario) anyRecvTimeout() bool {
+	if sc.RecvTimeoutMs > 0 {
+		return true
+	}
+	for i := range sc.Targets {
+		if d, err := time.ParseDuration(sc.Targets[i].Meta); err == nil && d > 0 {
+			return true
+		}
+	}
+	return false
+}
+
+func (sc *Scenario) anySlowCallback() bool {
+	for i := range sc.Targets {
+		for _, a := range sc.Targets[i].Attempts {
+			for _, m := range a.Msgs {
+				if m.CostMs > 0 {
+					return true
+				}
+			}
+		}
+	}
+	return false
 }
 
 // ---------------------------------------------------------------------------
@@ -171,7 +206,7 @@ var (
 	msgDelays   = []int{0, 0, 0, 0, 0, 10, 200, 1000, 2500, 7000}
 	endDelays   = []int{0, 0, 0, 10, 500, 1000, 2500, 8000, 130000}
 	dialDelays  = []int{0, 0, 0, 0, 10, 500, 3000}
-	costs       = []int{0, 0, 0, 0, 0, 0, 0, 500, 2000}
+	costs       = []int{0, 0, 0, 0, 0, 0, 500, 2000, 5000}
 	recvTOs     = []int{0, 0, 0, 1003, 2003, 5003, 30003}
 	dialTOs     = []int{0, 0, 0, 2001, 10001}
 	metas       = []string{"", "", "", "", "1503ms", "4003ms", "bogus", "0s"}
@@ -242,6 +277,16 @@ func genScenario(t *rapid.T) *Scenario {
 			Target:  rapid.IntRange(0, n-1).Draw(t, "target"),
 		}
 	}), 0, 7).Draw(t, "events")
+	if sc.anyRecvTimeout() {
+		// see validate: slow callbacks only in scenarios without receive timeouts
+		for i := range sc.Targets {
+			for j := range sc.Targets[i].Attempts {
+				for k := range sc.Targets[i].Attempts[j].Msgs {
+					sc.Targets[i].Attempts[j].Msgs[k].CostMs = 0
+				}
+			}
+		}
+	}
 	bound := sc.MaxMs * (100 + sc.RandPct) / 100
 	sc.TailMs = rapid.SampledFrom(tailFactors).Draw(t, "tail") * bound / 10
 	return sc
